@@ -1,4 +1,295 @@
-/- C02 — property theorems (under construction). -/
-import Lmd.Sync
+/-
+  C02 — the initial synchronisation stores the backend's objects faithfully.
+
+  `syncTable` is `CreateObjectByType`: the reply rows are coerced to the column types
+  (`coerceRow`, i.e. `NewDataRow` / `UpdateValues`) and sorted by the primary key
+  (`ResultSet.SortByPrimaryKey`); `buildIdLists` is `buildDowntimeCommentsList`.
+-/
+import Lmd.Lemmas.SyncLemmas
+
 namespace Lmd.C02
+open Lean (Json JsonNumber)
+open Lmd.SyncLemmas
+
+/-! ## 0. concrete tables for the non-vacuity examples -/
+
+/-- a small hosts table: text key, one int8 column, the comments id list -/
+def exHosts : Table :=
+  { name := "hosts",
+    cols := [{ name := "name", dtype := .str, storage := .loc },
+             { name := "state", dtype := .int, storage := .loc },
+             { name := "comments", dtype := .int64List, storage := .loc },
+             { name := "peer_key", dtype := .str, storage := .virt }],
+    primaryKey := ["name"] }
+
+def exRowA : ReplyRow := [("name", .str "alpha"), ("state", .num ⟨1, 0⟩)]
+def exRowB : ReplyRow := [("name", .str "beta"), ("state", .num ⟨300, 0⟩)]
+
+/-- a small comments table: numeric key -/
+def exComments : Table :=
+  { name := "comments",
+    cols := [{ name := "id", dtype := .int64, storage := .loc },
+             { name := "host_name", dtype := .str, storage := .loc },
+             { name := "service_description", dtype := .str, storage := .loc }],
+    primaryKey := ["id"] }
+
+def exC1 : ReplyRow := [("id", .num ⟨1, 0⟩), ("host_name", .str "alpha"), ("service_description", .str "")]
+def exC300 : ReplyRow := [("id", .num ⟨300, 0⟩), ("host_name", .str "alpha"), ("service_description", .str "ping")]
+
+/-! ## 1. the primary-key order on the rows of one table -/
+
+/-- Of two cached rows one may always stand before the other in the primary-key order
+    (`SortByPrimaryKey` never calls both "a after b" and "b after a"). -/
+theorem keyLe_total (t : Table) (a b : Row) : keyLe t a b = true ∨ keyLe t b a = true :=
+  keyLe_total' t a b
+
+/-- The primary-key order is transitive on the rows one table stores for a reply: all of them have
+    key tuples of the same length with the same kind (number / text) at every position, because
+    the kinds are fixed by the table's columns. -/
+theorem keyLe_trans (t : Table) (r₁ r₂ r₃ : ReplyRow)
+    (h₁ : keyLe t (coerceRow t r₁) (coerceRow t r₂) = true)
+    (h₂ : keyLe t (coerceRow t r₂) (coerceRow t r₃) = true) :
+    keyLe t (coerceRow t r₁) (coerceRow t r₃) = true :=
+  keyLe_trans' (keyShaped_coerceRow t r₁) (keyShaped_coerceRow t r₂) (keyShaped_coerceRow t r₃) h₁ h₂
+
+/-- Two rows of one table that are each "not after" the other have equal key tuples: the
+    comparison says `eq`, and for stored rows the two tuples are then the same list. -/
+theorem keyLe_antisymm (t : Table) (r₁ r₂ : ReplyRow)
+    (h₁ : keyLe t (coerceRow t r₁) (coerceRow t r₂) = true)
+    (h₂ : keyLe t (coerceRow t r₂) (coerceRow t r₁) = true) :
+    (coerceRow t r₁).sortKey t = (coerceRow t r₂).sortKey t :=
+  (cmpKeyParts_eq_iff ((keyShaped_coerceRow t r₁).compat (keyShaped_coerceRow t r₂))).mp
+    (SyncLemmas.keyLe_antisymm h₁ h₂)
+
+example : keyLe exHosts (coerceRow exHosts exRowA) (coerceRow exHosts exRowB) = true ∧
+    keyLe exHosts (coerceRow exHosts exRowB) (coerceRow exHosts exRowA) = false := by decide
+
+/-! ## 2. the cache after the initial fetch -/
+
+/-- `store_sorted` and `exactly_once`: after the initial fetch the table holds the coerced reply
+    rows ordered by primary key (every earlier row is "not after" every later row), and it holds
+    each of them exactly once: the stored list is a permutation of the coerced reply, so it has the
+    same length, contains every coerced row and nothing else. -/
+theorem syncTable_sorted (t : Table) (reply : List ReplyRow) :
+    (syncTable t reply).Pairwise (fun a b => keyLe t a b = true) ∧
+    (syncTable t reply).Perm (reply.map (coerceRow t)) ∧
+    (syncTable t reply).length = reply.length ∧
+    (∀ row, row ∈ syncTable t reply ↔ ∃ r ∈ reply, coerceRow t r = row) := by
+  have hp := syncTable_perm_rows t reply
+  refine ⟨syncTable_pairwise t reply, hp, by simpa using hp.length_eq, fun row => ?_⟩
+  rw [hp.mem_iff, List.mem_map]
+
+/-- The cache does not depend on the order in which the backend delivers the rows: two replies
+    that are permutations of each other and whose rows have pairwise different primary keys give
+    the same stored table.  (For a table without primary key the rows are kept in reply order; the
+    hypothesis then only allows replies with at most one row.) -/
+theorem syncTable_perm (t : Table) (r₁ r₂ : List ReplyRow) (hperm : r₁.Perm r₂)
+    (hd : (r₁.map (coerceRow t)).Pairwise
+      (fun a b => cmpKeyParts (a.sortKey t) (b.sortKey t) ≠ .eq)) :
+    syncTable t r₁ = syncTable t r₂ :=
+  syncTable_perm_eq t r₁ r₂ hperm hd
+
+/-- two hosts delivered in both orders -/
+example : syncTable exHosts [exRowA, exRowB] = syncTable exHosts [exRowB, exRowA] :=
+  syncTable_perm exHosts _ _ (List.Perm.swap _ _ _) (by decide)
+
+/-- the comments with ids 1 and 300, delivered in both orders (numeric key) -/
+example : syncTable exComments [exC300, exC1] = syncTable exComments [exC1, exC300] :=
+  syncTable_perm exComments _ _ (List.Perm.swap _ _ _) (by decide)
+
+/-- The hypothesis on the keys is needed: with equal keys the stable sort keeps the reply order of
+    the two rows, so the two deliveries are stored differently. -/
+theorem syncTable_perm_needs_distinct_keys :
+    ∃ (t : Table) (r₁ r₂ : List ReplyRow), r₁.Perm r₂ ∧
+      (syncTable t r₁).map (·.int "state") ≠ (syncTable t r₂).map (·.int "state") :=
+  ⟨exHosts, [[("name", .str "a"), ("state", .num ⟨1, 0⟩)], [("name", .str "a"), ("state", .num ⟨2, 0⟩)]],
+    [[("name", .str "a"), ("state", .num ⟨2, 0⟩)], [("name", .str "a"), ("state", .num ⟨1, 0⟩)]],
+    List.Perm.swap _ _ _, by
+      have e : ∀ r, syncTable exHosts r = (r.map (coerceRow exHosts)).mergeSort (keyLe exHosts) :=
+        fun _ => rfl
+      rw [e, e, List.mergeSort_of_pairwise (by decide), List.mergeSort_of_pairwise (by decide)]
+      decide⟩
+
+/-! ## 3. the stored cells -/
+
+/-- `insert_get`, first-occurrence form: if the table has a locally stored column `c` and `j` is
+    the first value delivered under that column's name, the cached row holds `coerce c.dtype j`. -/
+theorem insert_get_first (t : Table) (r : ReplyRow) (c : Column) (j : Json)
+    (hc : t.col? c.name = some c) (hloc : c.storage = .loc)
+    (hj : r.find? (·.1 == c.name) = some (c.name, j)) :
+    (coerceRow t r).cell? c.name = some (coerce c.dtype j) := by
+  rw [coerceRow_cell?, hc]
+  simp [hloc, hj]
+
+/-- `insert_get`: for every locally stored column of the table that is delivered in a reply row
+    without duplicate column names, the cached row holds the delivered value coerced to the
+    column's type. -/
+theorem insert_get (t : Table) (r : ReplyRow) (c : Column) (j : Json)
+    (hc : t.col? c.name = some c) (hloc : c.storage = .loc)
+    (hnodup : (r.map (·.1)).Nodup) (hj : (c.name, j) ∈ r) :
+    (coerceRow t r).cell? c.name = some (coerce c.dtype j) := by
+  apply insert_get_first t r c j hc hloc
+  induction r with
+  | nil => cases hj
+  | cons p r ih =>
+    rw [List.map_cons, List.nodup_cons] at hnodup
+    rcases List.mem_cons.mp hj with rfl | hj'
+    · simp
+    · have hp : ¬ (p.1 == c.name) = true := by
+        intro e
+        have e' : p.1 = c.name := by simpa using e
+        exact hnodup.1 (e' ▸ List.mem_map.mpr ⟨(c.name, j), hj', rfl⟩)
+      rw [List.find?_cons_of_neg (p := fun x : String × Json => x.1 == c.name) hp]
+      exact ih hnodup.2 hj'
+
+/-- Nothing else is stored: a column that is not delivered, a name the table does not know, and a
+    column that is not locally stored (virtual, reference) have no cell in the cached row. -/
+theorem insert_get_absent (t : Table) (r : ReplyRow) (n : String)
+    (h : r.find? (·.1 == n) = none ∨ t.col? n = none ∨ ∃ c, t.col? n = some c ∧ c.storage ≠ .loc) :
+    (coerceRow t r).cell? n = none := by
+  rw [coerceRow_cell?]
+  rcases h with h | h | ⟨c, hc, hs⟩
+  · rw [h]; split
+    · split <;> rfl
+    · rfl
+  · rw [h]
+  · rw [hc]; simp [hs]
+
+example : exHosts.col? "state" = some { name := "state", dtype := .int, storage := .loc } ∧
+    (exRowA.map (·.1)).Nodup ∧ ("state", Json.num ⟨1, 0⟩) ∈ exRowA := by
+  refine ⟨by decide, by decide, by simp [exRowA]⟩
+
+example : (coerceRow exHosts exRowB).int "state" = 0 ∧ (coerceRow exHosts exRowA).int "state" = 1 := by
+  decide
+
+/-! ## 4. coercion is the identity inside the column's range -/
+
+/-- A JSON string is stored unchanged in a text column (`StringCol`, `StringLargeCol`, `JSONCol`). -/
+theorem coerce_faithful_str (s : String) :
+    coerce .str (.str s) = .s s ∧ coerce .strLarge (.str s) = .s s ∧ coerce .json (.str s) = .s s :=
+  ⟨rfl, rfl, rfl⟩
+
+/-- An integer JSON number inside lmd's int8 column range -128 … 127 is stored exactly in an
+    `IntCol`; outside that range `checkInt8Bounds` stores 0. -/
+theorem coerce_faithful_int (n : Int) :
+    (-128 ≤ n ∧ n ≤ 127 → coerce .int (.num ⟨n, 0⟩) = .i n) ∧
+    (n < -128 ∨ 127 < n → coerce .int (.num ⟨n, 0⟩) = .i 0) := by
+  have h : coerce .int (.num ⟨n, 0⟩) = .i (checkInt8 n) := by
+    simp only [coerce, jsonToMilli, jsonNumMilli_int, milliTrunc_mul]
+  rw [h]
+  exact ⟨fun hr => by rw [checkInt8_of_range hr], fun ho => by rw [checkInt8_out ho]⟩
+
+/-- Every integer JSON number is stored exactly in an `Int64Col`. -/
+theorem coerce_faithful_int64 (n : Int) : coerce .int64 (.num ⟨n, 0⟩) = .i n := by
+  simp only [coerce, jsonToMilli, jsonNumMilli_int, milliTrunc_mul]
+
+/-- A JSON number with at most three fraction digits (`mantissa · 10^-exponent`, exponent ≤ 3) is
+    stored exactly in a `FloatCol`: the stored milli value `v` satisfies
+    `v / 1000 = mantissa / 10^exponent`. -/
+theorem coerce_faithful_float (n : JsonNumber) (h : n.exponent ≤ 3) :
+    ∃ v : Int, coerce .float (.num n) = .f v ∧ v * (10 ^ n.exponent : Nat) = n.mantissa * 1000 := by
+  refine ⟨n.mantissa * (10 ^ (3 - n.exponent) : Nat), ?_, ?_⟩
+  · simp only [coerce, jsonToMilli, jsonNumMilli, h, if_true]
+  · rw [Int.mul_assoc]
+    congr 1
+    rw [← Int.natCast_mul, ← Nat.pow_add, Nat.sub_add_cancel h]
+    rfl
+
+/-- A JSON array of strings is stored element by element in a `StringListCol`. -/
+theorem coerce_faithful_strList (l : List String) :
+    coerce .strList (.arr (l.map Json.str).toArray) = .sl l := by
+  show Val.sl ((l.map Json.str).toArray.toList.map jsonToStr) = .sl l
+  rw [List.toList_toArray, List.map_map]
+  congr 1
+  exact (List.map_congr_left (fun _ _ => rfl)).trans (List.map_id l)
+
+/-- A JSON array of integer numbers is stored element by element in an `Int64ListCol`. -/
+theorem coerce_faithful_intList (l : List Int) :
+    coerce .int64List (.arr (l.map fun n => Json.num ⟨n, 0⟩).toArray) = .il l := by
+  show Val.il ((l.map fun n => Json.num ⟨n, 0⟩).toArray.toList.map
+    (fun j => milliTrunc (jsonToMilli j))) = .il l
+  rw [List.toList_toArray, List.map_map]
+  congr 1
+  refine (List.map_congr_left (fun n _ => ?_)).trans (List.map_id l)
+  simp only [Function.comp, jsonToMilli, jsonNumMilli_int, milliTrunc_mul, id]
+
+/-- `coerce_faithful`: coercion is the identity on values inside the column's range, for every
+    scalar type and for the string and integer lists. -/
+theorem coerce_faithful :
+    (∀ s : String, coerce .str (.str s) = .s s) ∧
+    (∀ n : Int, -128 ≤ n ∧ n ≤ 127 → coerce .int (.num ⟨n, 0⟩) = .i n) ∧
+    (∀ n : Int, n < -128 ∨ 127 < n → coerce .int (.num ⟨n, 0⟩) = .i 0) ∧
+    (∀ n : Int, coerce .int64 (.num ⟨n, 0⟩) = .i n) ∧
+    (∀ n : JsonNumber, n.exponent ≤ 3 →
+      ∃ v : Int, coerce .float (.num n) = .f v ∧ v * (10 ^ n.exponent : Nat) = n.mantissa * 1000) ∧
+    (∀ l : List String, coerce .strList (.arr (l.map Json.str).toArray) = .sl l) ∧
+    (∀ l : List Int, coerce .int64List (.arr (l.map fun n => Json.num ⟨n, 0⟩).toArray) = .il l) :=
+  ⟨fun _ => rfl, fun n => (coerce_faithful_int n).1, fun n => (coerce_faithful_int n).2,
+    coerce_faithful_int64, coerce_faithful_float, coerce_faithful_strList, coerce_faithful_intList⟩
+
+/-- the float 1.25 is stored as 1250 milli -/
+example : coerce .float (.num ⟨125, 2⟩) = .f 1250 ∧ (⟨125, 2⟩ : JsonNumber).exponent ≤ 3 := by
+  refine ⟨?_, by decide⟩
+  simp [coerce, jsonToMilli, jsonNumMilli]
+
+/-- Beyond three fraction digits the value is truncated, not stored exactly. -/
+example : coerce .float (.num ⟨12345, 4⟩) = .f 1234 := by
+  simp [coerce, jsonToMilli, jsonNumMilli, Int.tdiv]
+
+/-! ## 5. the comment / downtime id lists -/
+
+/-- An id is listed for `(host, service)` iff some entry row carries that id, that host name and
+    that service description. -/
+theorem attachedIds_exact (entries : List Row) (h s : String) (i : Int) :
+    i ∈ attachedIds entries h s ↔
+      ∃ e ∈ entries, e.int "id" = i ∧ strCell e "host_name" = h ∧ strCell e "service_description" = s :=
+  mem_attachedIds
+
+/-- `idlists_exact`: after `buildIdLists name entries hosts services` the hosts and the services
+    are still the same number of rows in the same order; the host row at each position lists under
+    `name` exactly the ids of the entries with its host name and an empty service description; the
+    service row lists exactly the ids of the entries with its host name and its (non-empty)
+    description, and nothing when its description is empty; every other cell of every row is
+    unchanged. -/
+theorem idlists_exact (name : String) (entries hosts services : List Row) :
+    (buildIdLists name entries hosts services).1.length = hosts.length ∧
+    (buildIdLists name entries hosts services).2.length = services.length ∧
+    (∀ (k : Nat) (h : Row), hosts[k]? = some h →
+      ∃ h', (buildIdLists name entries hosts services).1[k]? = some h' ∧
+        h'.cell? name = some (.il (attachedIds entries (strCell h "name") "")) ∧
+        (∀ i, i ∈ attachedIds entries (strCell h "name") "" ↔
+          ∃ e ∈ entries, e.int "id" = i ∧ strCell e "host_name" = strCell h "name" ∧
+            strCell e "service_description" = "") ∧
+        ∀ n, n ≠ name → h'.cell? n = h.cell? n) ∧
+    (∀ (k : Nat) (s : Row), services[k]? = some s →
+      ∃ s' l, (buildIdLists name entries hosts services).2[k]? = some s' ∧
+        s'.cell? name = some (.il l) ∧
+        (∀ i, i ∈ l ↔ strCell s "description" ≠ "" ∧
+          ∃ e ∈ entries, e.int "id" = i ∧ strCell e "host_name" = strCell s "host_name" ∧
+            strCell e "service_description" = strCell s "description") ∧
+        ∀ n, n ≠ name → s'.cell? n = s.cell? n) := by
+  rw [buildIdLists_fst, buildIdLists_snd]
+  refine ⟨by simp, by simp, ?_, ?_⟩
+  · intro k h hk
+    refine ⟨_, by rw [List.getElem?_map, hk]; rfl, setCell_cell?_self _ _ _,
+      fun i => mem_attachedIds, fun n hn => setCell_cell?_other _ _ _ _ hn⟩
+  · intro k s hk
+    refine ⟨_, serviceIds entries s, by rw [List.getElem?_map, hk]; rfl, setCell_cell?_self _ _ _,
+      fun i => ?_, fun n hn => setCell_cell?_other _ _ _ _ hn⟩
+    unfold serviceIds
+    by_cases hd : strCell s "description" = ""
+    · simp [hd]
+    · have hd' : (strCell s "description" == "") = false := by simpa using hd
+      simp only [hd', Bool.false_eq_true, if_false, ne_eq, hd, not_false_eq_true, true_and]
+      exact mem_attachedIds
+
+/-- the host "alpha" gets the host comment 1, its service "ping" the service comment 300 -/
+example :
+    let entries := [exC1, exC300].map (coerceRow exComments)
+    let hosts := [exRowA, exRowB].map (coerceRow exHosts)
+    let svc : Row := { cells := [("host_name", .s "alpha"), ("description", .s "ping")] }
+    (buildIdLists "comments" entries hosts [svc]).1.map (fun h => attachedIds entries (strCell h "name") "")
+      = [[1], []] ∧
+    attachedIds entries "alpha" "ping" = [300] := by decide
+
 end Lmd.C02
